@@ -435,17 +435,13 @@ func (c *Ctx) callDominatedBySKTest(site ssa.CallInstruction) bool {
 			continue
 		}
 		p := b.Preds[0]
-		iff, ok := p.Instrs[len(p.Instrs)-1].(*ssa.If)
-		if !ok || p.Succs[0] != b {
-			continue
-		}
-		cond, ok := iff.Cond.(*ssa.BinOp)
+		cond, ok := edgeComparison(p, b)
 		if !ok {
 			continue
 		}
 		switch cond.Op {
-		case token.GTR:
-			// len(load(msg.Payloads)) > 0
+		case token.GTR, token.NEQ:
+			// len(load(msg.Payloads)) > 0 (or != 0) holds on this edge
 			if call, ok := cond.X.(*ssa.Call); ok {
 				if bi, ok := call.Call.Value.(*ssa.Builtin); ok && bi.Name() == "len" {
 					if c.isPayloadsLoadOf(call.Call.Args[0], msgArg) {
@@ -564,4 +560,29 @@ func RunC04(c *Ctx, r *Report) {
 	}
 	r.Extra["loops_in_scope"] = e.loops
 	r.Extra["goarch"] = strings.TrimSpace(c.GOARCH + " ")
+}
+
+
+// edgeComparison: the comparison that holds on the edge p -> b of an If (the condition itself on the true
+// edge, its negation on the false edge), as a BinOp value that is not part of the program.
+func edgeComparison(p, b *ssa.BasicBlock) (*ssa.BinOp, bool) {
+	iff, ok := p.Instrs[len(p.Instrs)-1].(*ssa.If)
+	if !ok || len(p.Succs) != 2 || p.Succs[0] == p.Succs[1] {
+		return nil, false
+	}
+	cond, ok := iff.Cond.(*ssa.BinOp)
+	if !ok {
+		return nil, false
+	}
+	if p.Succs[0] == b {
+		return cond, true
+	}
+	neg := map[token.Token]token.Token{token.EQL: token.NEQ, token.NEQ: token.EQL, token.LSS: token.GEQ, token.GEQ: token.LSS, token.GTR: token.LEQ, token.LEQ: token.GTR}
+	op, ok := neg[cond.Op]
+	if !ok {
+		return nil, false
+	}
+	n := *cond
+	n.Op = op
+	return &n, true
 }
